@@ -58,7 +58,10 @@ class PressureMatrix(forsys_general_matrix.GeneralMatrix):
             raise ValueError(f'big edge has own_cells={len(big_edge_cells)}, expecting 2')
 
         curvature = big_edge.calculate_total_curvature(normalized=False)
-        rhs_value = big_edge.tension * curvature
+        # a tension left at the lower bound by lsq_linear is the smallest denormal (5e-324): the product underflows to
+        # zero, which is the right value and must not raise under the package's np.seterr(all='raise')
+        with np.errstate(under="ignore"):
+            rhs_value = big_edge.tension * curvature
 
         c1_position = self.mapping_order[big_edge_cells[0]]
         c2_position = self.mapping_order[big_edge_cells[1]]
